@@ -2,6 +2,7 @@
 package smt
 
 import (
+	"os"
 	"fmt"
 	"math/big"
 	"sort"
@@ -356,6 +357,11 @@ func (c *Ctx) Ite(cond, a, b *Term) *Term {
 // Op builds a generic application of a built-in operator with result sort s. Bit-vector operations on literals are
 // folded, so that loops over constants unroll into straight-line terms.
 func (c *Ctx) Op(op string, s Sort, args ...*Term) *Term {
+	if op == "bvadd" && s.IsBV() && len(args) >= 2 && !noNormSum {
+		if t := c.normSum(s, args); t != nil {
+			return t
+		}
+	}
 	if len(args) == 2 {
 		if a, ok := args[0].BVValue(); ok {
 			if b, ok2 := args[1].BVValue(); ok2 {
@@ -757,4 +763,54 @@ func (c *Ctx) Subst(t, from, to *Term) *Term {
 		return r
 	}
 	return rec(t)
+}
+
+// off by default: measured on encodeBodyUncompressed:post:len, the normal form made the query four times slower
+// (74 s -> 317 s); kept behind a switch for experiments
+var noNormSum = os.Getenv("GOVC_NORMSUM") == ""
+
+// normSum builds a sum in a normal form modulo associativity and commutativity: nested sums are flattened, literals
+// are added up, the remaining operands are ordered by creation. Two byte counts that add the same terms in a
+// different order or grouping (an encoder's running count and a length function's total) then are the SAME term,
+// and their equality needs no reasoning about 64-bit adders - the one thing all three solvers are slow at.
+// Sums that mention a quantifier-bound variable directly keep their shape (trigger selection matches on it).
+func (c *Ctx) normSum(s Sort, args []*Term) *Term {
+	w := s.Width()
+	var ops []*Term
+	konst := new(big.Int)
+	var walk func(t *Term) bool
+	walk = func(t *Term) bool {
+		if t.Bound {
+			return false
+		}
+		if v, ok := t.BVValue(); ok {
+			konst.Add(konst, v)
+			return true
+		}
+		if t.Op == "bvadd" && t.Sort == s {
+			for _, a := range t.Args {
+				if !walk(a) {
+					return false
+				}
+			}
+			return true
+		}
+		ops = append(ops, t)
+		return true
+	}
+	for _, a := range args {
+		if !walk(a) {
+			return nil
+		}
+	}
+	sort.SliceStable(ops, func(i, j int) bool { return ops[i].id < ops[j].id })
+	m := new(big.Int).Lsh(big.NewInt(1), uint(w))
+	konst.Mod(konst, m)
+	if konst.Sign() != 0 || len(ops) == 0 {
+		ops = append(ops, c.BVLit(konst, w))
+	}
+	if len(ops) == 1 {
+		return ops[0]
+	}
+	return c.mk("bvadd", s, ops...)
 }
